@@ -161,6 +161,9 @@ func buildWorker(scratch, variant string) (string, *rewrite.Stats) {
 
 func runWorker(bin string, memMB int, env []string, args ...string) ([]byte, []byte, error) {
 	var cmd *exec.Cmd
+	if memMB == 0 {
+		memMB = 16384 // backstop for every worker: the sandbox has no memory limit of its own
+	}
 	if memMB > 0 {
 		sh := fmt.Sprintf("ulimit -v %d; exec \"$0\" \"$@\"", memMB*1024)
 		cmd = exec.Command("/bin/sh", append([]string{"-c", sh, bin}, args...)...)
